@@ -8,6 +8,7 @@ import Dawgs.Proofs.C07Yield2
 import Dawgs.Proofs.C07RoundPat
 import Dawgs.Proofs.C07YieldPat
 import Dawgs.Proofs.C07RoundQuery
+import Dawgs.Proofs.C07YieldClause
 import Dawgs.Spec.C07
 namespace Dawgs.C07.Props
 open Dawgs.C07 Dawgs.C07.Inst Dawgs.Grammar Dawgs.C08
@@ -66,13 +67,72 @@ model `q` from the canonical derivation `tQuery q` the emitter follows, for ever
 multi-part queries made of MATCH / OPTIONAL MATCH (comma-separated pattern parts, WHERE), UNWIND, CREATE, DELETE / DETACH
 DELETE, REMOVE, SET (=, +=, labels), MERGE with ON CREATE / ON MATCH actions, WITH (projection body + WHERE) and RETURN
 (DISTINCT, items with AS, ORDER BY asc/desc, SKIP, LIMIT), over the proved pattern and expression layers -/
-theorem emit_build_fixed (f : Nat) (q : Query) (hw : wQuery (wfExpr f) q = true) :
-    build N (tQuery N (treeOfExpr N f) q) = .ok q :=
-  build_ok names_ok _ _ (treeOfExpr_ok names_ok f) q hw
+theorem emit_build_fixed (f : Nat) (m : Query) (hw : wfQuery f m = true) : build N (treeOf N f m) = .ok m :=
+  build_ok names_ok _ _ (treeOfExpr_ok names_ok f) m hw
+
+/-- the canonical derivation carries exactly the token sequence format.go writes for the model (`emit`), in the same ORDER -/
+theorem emit_yield (f : Nat) (m : Query) (hw : wfQuery f m = true) (hs : size (treeOf N f m) ≤ bigFuel) :
+    emit m = yieldT (treeOf N f m) :=
+  yield_query _ _ (fun e G hw hG => treeOfExpr_yield N f e G hw hG) m hw hs
+
+mutual
+theorem treeEq_sound : ∀ a b : Tree, treeEq a b = true → a = b
+  | .node r ks, .node r' ks', h => by
+    simp only [treeEq, Bool.and_eq_true, beq_iff_eq] at h
+    rw [h.1, treeEqL_sound ks ks' h.2]
+  | .leaf s, .leaf s', h => by simp only [treeEq, beq_iff_eq] at h; rw [h]
+  | .err s, .err s', h => by simp only [treeEq, beq_iff_eq] at h; rw [h]
+  | .node _ _, .leaf _, h => by simp [treeEq] at h
+  | .node _ _, .err _, h => by simp [treeEq] at h
+  | .leaf _, .node _ _, h => by simp [treeEq] at h
+  | .leaf _, .err _, h => by simp [treeEq] at h
+  | .err _, .node _ _, h => by simp [treeEq] at h
+  | .err _, .leaf _, h => by simp [treeEq] at h
+theorem treeEqL_sound : ∀ as bs : List Tree, treeEqL as bs = true → as = bs
+  | [], [], _ => rfl
+  | a :: as, b :: bs, h => by
+    simp only [treeEqL, Bool.and_eq_true] at h
+    rw [treeEq_sound a b h.1, treeEqL_sound as bs h.2]
+  | [], _ :: _, h => by simp [treeEqL] at h
+  | _ :: _, [], h => by simp [treeEqL] at h
+end
+
+/-- `faithful_partial`: for EVERY tree `t` that satisfies `Represented` and the decidable well-formedness `canonicalAt N f t`
+(the visitor model accepts `t`, the model it builds is in the proved sub-grammar, and `t` is the canonical derivation of that
+model), the model `m` built from `t` is emitted with exactly the terminal yield of `t`, as an ORDERED sequence — so any content
+projection `ct` of the two token sequences agrees as well — and parsing the emitted derivation gives `m` back -/
+theorem faithful_partial (t : Tree) (f : Nat) (_hr : C.represented t = true) (hc : canonicalAt N f t = true) (hs : size t ≤ bigFuel) :
+    ∃ m, build N t = .ok m ∧ emit m = yieldT t ∧ (∀ ct : List String → List String, ct (yieldT t) = ct (emit m)) ∧
+      build N (treeOf N f m) = .ok m := by
+  unfold canonicalAt at hc
+  cases hb : build N t with
+  | error e => rw [hb] at hc; cases hc
+  | ok m =>
+    rw [hb] at hc
+    simp only [Bool.and_eq_true] at hc
+    have ht := treeEq_sound _ _ hc.2
+    have hy := emit_yield f m hc.1 (by rw [← ht]; exact hs)
+    rw [← ht] at hy
+    exact ⟨m, rfl, hy, fun ct => by rw [hy], emit_build_fixed f m hc.1⟩
+
+/-- every well-formed model has a canonical tree satisfying the decidable well-formedness: the proved domain is the whole
+image of `treeOf` -/
+theorem canonical_treeOf (f : Nat) (m : Query) (hw : wfQuery f m = true) : canonicalAt N f (treeOf N f m) = true := by
+  have h : ∀ a : Tree, treeEq a a = true := by
+    intro a
+    induction a using Tree.rec (motive_2 := fun ks => treeEqL ks ks = true) with
+    | node r ks ih => simp [treeEq, ih]
+    | leaf s => simp [treeEq]
+    | err s => simp [treeEq]
+    | nil => simp [treeEqL]
+    | cons a as iha ihas => simp [treeEqL, iha, ihas]
+  unfold canonicalAt
+  rw [emit_build_fixed f m hw]
+  simp [hw, h]
 
 /-- non-vacuity: `MATCH (a:User)-[r:MemberOf*1..]->(g:Group) WHERE a.name = $n WITH g, count(*) AS c WHERE c > 1
 MATCH (g)<-[:AdminTo]-(x) SET x.seen = true RETURN DISTINCT x.name AS name ORDER BY name DESC SKIP 1 LIMIT 10` -/
-example : wQuery (wfExpr 2) (.multi
+example : wfQuery 2 (.multi
     [{ reading := [.match_ false [{ var := none, shortest := false, allShortest := false, els := [
           .node (some "a") ["User"] none, .rel (some "r") ["MemberOf"] 1 (some (some 1, none)) none, .node (some "g") ["Group"] none] }]
           (some (.cmp (.prop (.var "a") "name") [("=", .param "n")]))],
